@@ -228,7 +228,9 @@ def _one(cfg, pre):
         res = thr_el.run_threads(cfg, pre)
     if res["status"] == "hang":
         raise RuntimeError(f"controller hang cfg={cfg} pre={pre}")
-    if cfg.get("kind", "el") == "el":
+    if any(o[0] == "periodic" for p in cfg["progs"] for o in p):
+        traces, problems, verdict = [], [], thr_el.oracle_periodic(cfg, res)  # oracle only (schedule_periodic has no model here)
+    elif cfg.get("kind", "el") == "el":
         trace, problems, _ = thr_el.labels_of(res)
         traces = [{"xie": cfg["xie"], "progs": cfg["progs"], "trace": trace}]
         verdict = thr_el.oracle(cfg, res)
@@ -304,6 +306,15 @@ def thread_configs(rng, tier):
         ("two-clients-xie", {"xie": True, "progs": [[["sched", 1, []]], [["rel", 101, 5, []]]]}, 1 if q else 2),
         # NewThreadScheduler / ThreadPoolScheduler: a private exit_if_empty EventLoopScheduler per item
         ("newthread", {"kind": "newthread", "xie": True, "progs": [[["sched", 1, [["tick", 3]]], ["rel", 2, 10, []], ["cancel", 2]]]}, 1),
+        # a condition timeout that fires before the scheduler clock reaches the due time (clock skew): the loop must re-compare
+        ("timed-early-timeout", {"xie": False, "progs": [[["rel", 1, 10, []], ["rel", 2, 30, []]]], "early_timeouts": [2, 4]}, 1 if q else 2),
+        # schedule_periodic of NewThreadScheduler / ThreadPoolScheduler: period 0 / a tick that overruns its period, dispose while a tick runs
+        ("periodic-overrun", {"kind": "newthread", "xie": True, "max_steps": 1500,
+                              "progs": [[["periodic", 1, 5, 5], ["sleep", 12], ["pcancel", 1]]]}, 1 if q else 2),
+        ("periodic-zero", {"kind": "threadpool", "xie": True, "max_steps": 1500,
+                           "progs": [[["periodic", 1, 0, 4], ["sleep", 9], ["pcancel", 1]]]}, 1 if q else 2),
+        ("periodic-normal", {"kind": "newthread", "xie": True, "max_steps": 1500,
+                             "progs": [[["periodic", 1, 10, 2], ["sleep", 25], ["pcancel", 1]]]}, 1),
         ("threadpool", {"kind": "threadpool", "xie": True, "progs": [[["rel", 1, 5, []]], [["sched", 101, []], ["cancel", 101]]]}, 1),
     ]
     for j in range(2):
@@ -331,10 +342,8 @@ def _explore_all(items, procs, timeout):
 
 
 def _base_child(cfg):
-    from sched import thr_el
-
-    res = thr_el.run_threads(cfg, {})
-    return {"choices": [list(c) for c in res["choices"]], "steps": res["steps"], "status": res["status"]}
+    res, summ = _one(cfg, {})
+    return {"choices": [list(c) for c in res["choices"]], "steps": res["steps"], "status": res["status"], "oracle": summ["oracle"]}
 
 
 def extra(rng, tier):
@@ -351,12 +360,12 @@ def extra(rng, tier):
         meta[name] = {"k": k, "choice_points": len(choices), "steps": summ["steps"]}
         if summ["status"] not in ("ok", "idle"):
             # the default (fair, non-preemptive) schedule already fails: report it, do not enumerate thousands of such runs
-            failures.append(fw.Failure("oracle", {"op": "threads", "cfg": cfg, "pre": []}, f"run ended with status {summ['status']} under the default schedule"))
+            failures.append(fw.Failure("oracle", {"op": "threads", "cfg": cfg, "pre": []}, summ.get("oracle") or f"run ended with status {summ['status']} under the default schedule"))
             continue
         items.append({"name": name, "cfg": cfg, "pre": [], "start": 0, "depth": k, "k": k})
         for i, t in thr_ctl.first_level(choices):
             items.append({"name": name, "cfg": cfg, "pre": [[i, t]], "start": i + 1, "depth": 1, "k": k})
-        ns = fw.tier_scale(tier, 80, 800)
+        ns = fw.tier_scale(tier, 48, 800)
         for j in range(4):
             items.append({"name": name, "cfg": cfg, "sample": True, "seed": rng.randrange(1 << 30), "runs": ns // 4, "n": k + 1 + (j % 2)})
     results = _explore_all(items, procs, fw.tier_scale(tier, 400, 3000))
